@@ -430,3 +430,116 @@ func zzC08cCloseBounded() {
 	vf.Assert("close-returns-once-the-request-ends", returned)
 	vf.Reach("end")
 }
+
+// C16.e: a caller that gives up (its context ends) does not disturb later callers, whatever the
+// broker sends for the abandoned call id afterwards (late ack, duplicated late acks, late reply).
+func zzC16eAbandonedCall() {
+	b := zzNewBroker()
+	b.handler = func(t *zzTr, m message.Message) bool { return true }
+	conn := zzConnect(b)
+	tr := b.last()
+	actx, acancel := context.WithCancel(context.Background())
+	var errA error
+	doneA := false
+	waitReply := vf.Choose("a.waits.for.reply", 2) == 1
+	go func() {
+		if waitReply {
+			_, errA = conn.SendCallAndWaitReplayCall(actx, &UpstreamCall{DestinationNodeID: "dst", Name: "na", Type: "ta"})
+		} else {
+			_, errA = conn.SendCall(actx, &UpstreamCall{DestinationNodeID: "dst", Name: "na", Type: "ta"})
+		}
+		doneA = true
+	}()
+	vf.Settle()
+	calls := zzCallsOf(tr)
+	vf.Assume(len(calls) == 1)
+	idA := calls[0].CallID
+	acancel()
+	vf.Settle()
+	vf.Assert("abandoned-caller-returns-an-error", doneA && errA != nil)
+	// late traffic for the abandoned id
+	for i, n := 0, vf.Choose("late.acks", 4); i < n; i++ {
+		tr.push(&message.UpstreamCallAck{CallID: idA, ResultCode: message.ResultCodeSucceeded})
+	}
+	if vf.Choose("late.reply", 2) == 1 {
+		tr.push(&message.DownstreamCall{CallID: "late-reply", RequestCallID: idA, SourceNodeID: "dst"})
+		tr.push(&message.DownstreamCall{CallID: "late-reply-2", RequestCallID: idA, SourceNodeID: "dst"})
+	}
+	vf.Settle()
+	// a later caller still gets the ack for its own id
+	var idB string
+	var errB error
+	doneB := false
+	go func() {
+		idB, errB = conn.SendCall(context.Background(), &UpstreamCall{DestinationNodeID: "dst", Name: "nb", Type: "tb"})
+		doneB = true
+	}()
+	vf.Settle()
+	calls = zzCallsOf(tr)
+	vf.Assert("later-call-on-the-wire", len(calls) == 2)
+	if len(calls) == 2 {
+		tr.push(&message.UpstreamCallAck{CallID: calls[1].CallID, ResultCode: message.ResultCodeSucceeded})
+		vf.Settle()
+		vf.Assert("later-caller-gets-its-own-ack", doneB && errB == nil && idB == calls[1].CallID && idB != idA)
+	}
+	conn.Close(context.Background())
+	vf.Reach("end")
+}
+
+func zzUpstreamChunksOf(t *zzTr) []*message.UpstreamChunk {
+	var out []*message.UpstreamChunk
+	for _, m := range t.msgs() {
+		if c, ok := m.(*message.UpstreamChunk); ok {
+			out = append(out, c)
+		}
+	}
+	return out
+}
+
+// C20.d: Flush is a barrier, on a stream obtained from the real OpenUpstream: after a Flush whose
+// context was already cancelled (whatever way it ended), a later Flush that returns nil has cut every
+// point accepted before it, the visible buffer is empty and the totals match.
+func zzC20dFlushBarrier() {
+	b := zzNewBroker()
+	zzServeStreams(b)
+	conn := zzConnect(b)
+	tr := b.last()
+	ctx := context.Background()
+	up, err := conn.OpenUpstream(ctx, "session", WithUpstreamFlushPolicyNone(), WithUpstreamQoS(message.QoSReliable))
+	vf.Assume(err == nil)
+	vf.Settle()
+	id := &message.DataID{Name: "n", Type: "t"}
+	p1 := vf.U8("p1")
+	vf.Assert("write-1", up.WriteDataPoints(ctx, id, &message.DataPoint{Payload: []byte{p1}}) == nil)
+	vf.Settle()
+	// a Flush that gives up: cancelled before, or while, the flush loop serves it
+	cancelled, cancel := context.WithCancel(ctx)
+	cancel()
+	rounds := 1 + vf.Choose("cancelled.flushes", 2)
+	for i := 0; i < rounds; i++ {
+		up.Flush(cancelled)
+		vf.Settle()
+	}
+	p2 := vf.U8("p2")
+	vf.Assert("write-2", up.WriteDataPoints(ctx, id, &message.DataPoint{Payload: []byte{p2}}, &message.DataPoint{}) == nil)
+	vf.Settle()
+	ferr := up.Flush(ctx)
+	if ferr == nil {
+		st := up.State()
+		vf.Assert("flush-nil-means-buffer-empty", len(st.DataPointsBuffer) == 0)
+		vf.Assert("flush-nil-means-all-accepted-points-cut", st.TotalDataPoints == 3)
+		vf.Settle()
+		n := 0
+		for _, c := range zzUpstreamChunksOf(tr) {
+			vf.Assert("chunk-number-at-most-last-issued", c.StreamChunk.SequenceNumber <= st.LastIssuedSequenceNumber)
+			vf.Assert("no-empty-chunk", len(c.StreamChunk.DataPointGroups) > 0)
+			for _, g := range c.StreamChunk.DataPointGroups {
+				n += len(g.DataPoints)
+			}
+		}
+		vf.Assert("all-points-on-the-wire", n == 3)
+		vf.Reach("flushed")
+	}
+	conn.Close(ctx)
+	vf.Reach("end")
+}
